@@ -1,7 +1,7 @@
 (* C09: streaming is transparent -- results independent of I/O fragmentation and faults. *)
 From Coq Require Import List NArith Lia Bool.
 From Rpgp Require Import Base.Octets Base.Res Sym.Cfb Sym.Seipd1Machine Sym.Seipd1MachineProofs Frame.Framing Frame.BodyReader Frame.BodyReaderProofs Aead.Seipd2 Aead.Seipd2Machine Aead.Seipd2MachineProofs Io.Emitter Io.EmitterProofs Sym.Seipd1EncMachine Sym.Seipd1EncMachineProofs.
-From Rpgp Require Import Io.Fill Io.FillProofs Armor.Base64 Armor.LineWriter Armor.LineWriterProofs Armor.B64Reader Armor.B64ReaderProofs.
+From Rpgp Require Import Io.Reassemble Io.ReassembleProofs Io.Fill Io.FillProofs Armor.Base64 Armor.LineWriter Armor.LineWriterProofs Armor.B64Reader Armor.B64ReaderProofs.
 Import ListNotations.
 Open Scope N_scope.
 
@@ -92,3 +92,47 @@ Theorem C09_v1_encryptor_request_independent :
       enc_run E bs sha1 req1 prefix data = enc_run E bs sha1 req2 prefix data.
 Proof. exact enc_request_independent. Qed.
 Print Assumptions C09_v1_encryptor_request_independent.
+
+(* armor::read_from_buf (armor header, armor footer, cleartext header): for a parser whose
+   decisions are stable under more input and never taken inside octets already seen undecided,
+   the value returned is the parser's on the whole stream for every cutting into pieces *)
+Theorem C09_reassembly_is_whole_parse :
+  forall (T : Type) (P : bytes -> pres T) limit,
+    (forall x n t, P x = PDone n t -> n <= lenN x) ->
+    (forall x y n t, P x = PDone n t -> exists n', P (x ++ y) = PDone n' t) ->
+    (forall x y, P x = PBad -> P (x ++ y) = PBad) ->
+    (forall x y n t, P x = PMore -> P (x ++ y) = PDone n t -> lenN x <= n) ->
+    forall cs, cs <> [] -> Forall (fun c => c <> []) cs -> lenN (concat cs) < limit ->
+      r_value T (rfb T P limit cs) = p_value T (P (concat cs)).
+Proof. exact rfb_value. Qed.
+Print Assumptions C09_reassembly_is_whole_parse.
+
+(* ... and when the parser uses the same octets whatever follows, the source is left exactly behind them *)
+Theorem C09_reassembly_leaves_source_behind_parse :
+  forall (T : Type) (P : bytes -> pres T) limit,
+    (forall x n t, P x = PDone n t -> n <= lenN x) ->
+    (forall x y n t, P x = PDone n t -> exists n', P (x ++ y) = PDone n' t) ->
+    (forall x y, P x = PBad -> P (x ++ y) = PBad) ->
+    (forall x y n t, P x = PMore -> P (x ++ y) = PDone n t -> lenN x <= n) ->
+    (forall x y n t, P x = PDone n t -> P (x ++ y) = PDone n t) ->
+    forall cs, cs <> [] -> Forall (fun c => c <> []) cs -> lenN (concat cs) < limit ->
+      r_rest T (rfb T P limit cs) = p_rest T (concat cs) (P (concat cs)).
+Proof. exact rfb_rest. Qed.
+Print Assumptions C09_reassembly_leaves_source_behind_parse.
+
+(* the premises are satisfiable: the one-line parser the correspondence check runs through the real loop *)
+Theorem C09_reassembly_line_parser_cutting_independent : forall limit cs1 cs2,
+  concat cs1 = concat cs2 -> cs1 <> [] -> cs2 <> [] ->
+  Forall (fun c => c <> []) cs1 -> Forall (fun c => c <> []) cs2 -> lenN (concat cs1) < limit ->
+  rfb bytes (line_parser 0) limit cs1 = RErr /\ rfb bytes (line_parser 0) limit cs2 = RErr \/
+  exists t r1 r2, rfb bytes (line_parser 0) limit cs1 = RVal t r1 /\ rfb bytes (line_parser 0) limit cs2 = RVal t r2 /\ concat r1 = concat r2.
+Proof. exact line_parser_cutting_independent. Qed.
+Print Assumptions C09_reassembly_line_parser_cutting_independent.
+
+(* ... and needed: a parser that decides two octets late gives a value in one piece and an error in two *)
+Theorem C09_reassembly_contract_needed :
+  rfb bytes (line_parser 2) 100 [[x61; LF; x62; x63]] = RVal [x61] [[x62; x63]] /\
+  rfb bytes (line_parser 2) 100 [[x61; LF; x62]; [x63]] = RErr /\
+  rfb bytes (line_parser 1) 100 [[x61; LF]; [x62]; [x63]] = RVal [x61] [[x62]; [x63]].
+Proof. exact late_parser_is_cut_dependent. Qed.
+Print Assumptions C09_reassembly_contract_needed.
